@@ -46,7 +46,7 @@ def parents_ok(n, ps):
 def s1_traverse(p1: int, p2: int, p3: int, p4: int, p5: int, k0: bool, k1: bool, k2: bool, k3: bool, k4: bool, k5: bool,
                 as_tuple: bool, filt: int, depth: int, nodepth: bool, include_source: bool) -> bool:
     """
-    pre: parents_ok(P('n'), [p1, p2, p3, p4, p5]) and 0 <= filt <= 2 and fixed(filt, 'filt') and fixed(include_source, 'src') and fixed(as_tuple, 'tup')
+    pre: fixed(filt, 'filt') and fixed(include_source, 'src') and fixed(as_tuple, 'tup') and parents_ok(P('n'), [p1, p2, p3, p4, p5]) and 0 <= filt <= 2
     post: _
     """
     n = P('n')
@@ -199,14 +199,14 @@ def digits_ok(k, *cs):
     return True
 
 
-@lemma('S4.scalars', 'C12', quick=[{'k': k} for k in (1, 2)], thorough=[{'k': k} for k in range(1, 10)], timeout=600, per_path=90,
+@lemma('S4.scalars', 'C12', quick=[{'k': k, 'bullet': b} for k in (1, 2) for b in (0, 1, 2)], thorough=[{'k': k} for k in range(1, 10)], timeout=600, per_path=90,
        covers=['block_token.py:List.__init__', 'block_token.py:ListItem.parse_marker', 'block_token.py:SetextHeading.__init__',
                'block_token.py:Heading.start'],
        note='ordered list: start == int(digits of the first marker) for every digit string of length k; bullet list: start is None; setext level in {1,2}; heading level in 1..6')
 def s4_scalars(d1: int, d2: int, d3: int, d4: int, d5: int, d6: int, d7: int, d8: int, d9: int, paren: bool, bullet: int,
                eq: bool, hashes: int) -> bool:
     """
-    pre: digits_ok(P('k'), d1, d2, d3, d4, d5, d6, d7, d8, d9) and 0 <= bullet <= 2 and 1 <= hashes <= 6
+    pre: fixed(bullet, 'bullet') and digits_ok(P('k'), d1, d2, d3, d4, d5, d6, d7, d8, d9) and 0 <= bullet <= 2 and 1 <= hashes <= 6
     post: _
     """
     from mistletoe import Document
@@ -322,7 +322,7 @@ def _token_sets():
        note='whole parse under the token sets of the Html, Markdown, LaTeX and XWiki renderers: parent links, child kinds, scalar ranges, traverse yields each token once, get_ast mirrors the tree')
 def s5_pipeline(c1: int, c2: int, c3: int) -> bool:
     """
-    pre: (all_ok(cp_md, P('k'), c1, c2, c3) if P('sigma') else all_in(S5_ALPH, P('k'), c1, c2, c3)) and fixed(c1, 'c1')
+    pre: fixed(c1, 'c1') and (all_ok(cp_md, P('k'), c1, c2, c3) if P('sigma') else all_in(S5_ALPH, P('k'), c1, c2, c3))
     post: _
     """
     from mistletoe import Document
